@@ -10,7 +10,8 @@ PROP_FILE = "Properties/C11.v"
 RULE = ("stream `streams`: as for C12, with all six initial flow-control parameters of both sides drawn from {0,1,small,large,unequal}; "
         "non-trivial = at least one LOAD after a successful WRITE and (a MAX_STREAM_DATA / MAX_DATA / HANDSHAKE after a LOAD, or a peer STREAM/RESET frame "
         "within 2 bytes of a stream or connection limit, or beyond it); a directed family drives a 0-RTT client (open, write, LOAD under the remembered "
-        "parameters, then a rejected or accepted HANDSHAKE whose MAX_DATA lies below / at / above what was sent, then LOADs, MAX_DATA, losses). "
+        "parameters, then a rejected or accepted HANDSHAKE whose MAX_DATA lies below / at / above what was sent, then LOADs, MAX_DATA, losses - also of the frames of the "
+        "rejected 0-RTT packets). "
         "stream `flow`: op lists over CREDIT quota, POST i n, DROP i, MAXDATA v, RCVD n, REVISE rejected v on the public FlowController; non-trivial = the send "
         "limit is reached at least once and raised afterwards (by MAX_DATA or a handshake), with at least one credit only partly used; distinct by hash")
 TRUSTED_BASE = ["models coq/Model/Flow.v (SendControler, Credit, RecvController) and coq/Model/StreamCtl.v (window selection in poll_open_*/try_accept_*/"
@@ -25,9 +26,10 @@ ASSUMPTIONS = ["no Credit holds unused budget while a rejected 0-RTT handshake i
                "taken before the rejection, c11_conn_limit_quiet the form `fresh bytes since the rejection <= MAX_DATA` for slack 0; the flow stream exercises both. "
                "Not covered: a 1-RTT packet assembled on another thread between revise_params and revise_max_data of the TLS-finished handler (apply_parameters is "
                "not atomic with respect to the sender task; cannot be driven by this single-threaded harness)",
-               "after a rejected 0-RTT handshake no STREAM frame sent before it is reported lost (LOSE): the streams have forgotten their sent state and "
-               "BufMap::may_loss requires sent data (debug_assert `Lost Range covered Pending parts`); nothing in qconnection discards the sent records of the "
-               "rejected 0-RTT packets, so the real connection can reach this - reported as an observation, outside the op lists generated here",
+               "STREAM frames of rejected 0-RTT packets are reported lost after the rejection (nothing in qconnection discards their sent records): generated "
+               "(gen_zero_rtt, gen_case) and judged like every other loss since finding F70 (property C09) is repaired - SendBuf::may_loss_data acts on the "
+               "sent part of the range only (as it was: debug panic `Lost Range covered Pending parts`, release: the never-sent rest of the stream turned Lost and "
+               "went out free of connection-level flow control; corpus/C11/streams/f70.case). Acknowledgements are not part of this stream (C09, C01)",
                "a rejected handshake is checked against qbase/src/flow.rs on every run (regen: SendControler::revise_max_data must restart sent_data in its rejected branch, fail closed)",
                "packet capacities <= 65536; offset+length <= 2^62-1; an accepted 0-RTT handshake does not shrink remembered parameters",
                "an empty non-FIN STREAM frame beyond the received data advances Recv.largest without being counted (observation O1 in the report): "
@@ -162,12 +164,16 @@ def hist(case):
             lab.append("%s.windows:has0" % nm)
         lab.append("%s.md:%s" % (nm, "0" if p.md == 0 else "1" if p.md == 1 else "small" if p.md <= 5000 else "large"))
     loaded = False
+    stale = False
     for t, a in case.ops:
         lab.append("op:" + sc.OPS[t])
         if t == 6:
             loaded = True
         if t == 0 and cf["mode"] == 1:
             lab.append("0rtt-handshake:%s%s" % ("rejected" if a[0] else "accepted", "-after-load" if loaded else ""))
+            stale = bool(a[0]) and loaded
+        if t == 15 and stale:
+            lab.append("lose:after-rejected-0rtt")       # candidates for a frame of a rejected 0-RTT packet (finding F70)
     return lab
 
 
@@ -241,9 +247,8 @@ def gen_zero_rtt(rng, prefix, n):
                 ops.append((13, [Rp[2] + rng.choice([1, 100, 1000, 5000])]))
             elif r < 0.3:
                 ops.append((10, [rng.choice(sids), rng.choice([300, 1000, 6000])]))
-            elif r < 0.4 and not rej:
-                # (after a rejection no frame of a rejected 0-RTT packet is reported lost, see ASSUMPTIONS; losses after a
-                # rejection are in the corpus cases, where the frame indices are known)
+            elif r < 0.4:
+                # after a rejection the indices 0..emitted-before-the-handshake are frames of rejected 0-RTT packets (F70)
                 ops.append((15, [rng.randint(0, emitted + 2)]))
             elif r < 0.5:
                 ops.append((2, [rng.choice(sids), rng.choice([1, 200, 2000])]))
